@@ -6,6 +6,7 @@ mod chandrv;
 mod deploydrv;
 mod scriptdrv;
 mod drivers;
+mod gendrv;
 mod multidrv;
 mod storedrv;
 mod tree;
@@ -135,6 +136,7 @@ fn main() {
         "chan" => chandrv::run(&args),
         "script" => scriptdrv::run(&args),
         "multi" => multidrv::run(&args),
+        "gen" => gendrv::run(&args),
         "tree" => drivers::trees(&args),
         _ => {
             eprintln!("usage: harness <random|replay|tree> --models F --out F [--seed N] ...");
